@@ -1,9 +1,11 @@
 (* Sx front end of the watchdog model (C12).
-   request : [hb, [state, connected, mlt_ms, [id]?], [event, ...]]
-     event : [0, t] Tick | [1, t, kind, rid?] Recv (kind 0 Heartbeat, 1 TestRequest, 2 application)
+   request : [hb, [state, connected, mlt_ms, [id]?, gap], [event, ...]]
+     event : [0, t] Tick
+           | [1, t, kind, rid?, d] Recv numbered next_num_in + d (kind 0 Heartbeat, 1 TestRequest, 2 application)
+           | [1, t, 3, [], d, nw] Recv SequenceReset with NewSeqNo = next_num_in + nw
            | [2, t] send_test_req() | [3, t, rid] send_msg(TestRequest(112 = rid))
-   answer  : per event [outs, [state, connected, mlt_ms, [id]?]]
-     out   : [0, kind, rid?] frame (kind 0 Heartbeat, 1 TestRequest, 5 Logout) | [1] disconnect
+   answer  : per event [outs, [state, connected, mlt_ms, [id]?, gap]]
+     out   : [0, kind, rid?] frame (kind 0 Heartbeat, 1 TestRequest, 2 ResendRequest, 5 Logout) | [1] disconnect
            | [2] timer spins | [3] raised to the caller | [4] outside the model *)
 From Coq Require Import ZArith NArith List Bool.
 From AF Require Import Base.Sx Py.Str Fix.Timer.
@@ -12,9 +14,9 @@ Open Scope Z_scope.
 
 Definition get_st (hb : Z) (s : sx) : option st :=
   match s with
-  | SL [SI state; c; SI mlt; i] =>
+  | SL [SI state; c; SI mlt; i; SI g] =>
       match get_bool c, get_opt get_z i with
-      | Some c, Some i => Some (mkSt state hb mlt i c)
+      | Some c, Some i => Some (mkSt state hb mlt i c g)
       | _, _ => None
       end
   | _ => None
@@ -23,22 +25,23 @@ Definition get_st (hb : Z) (s : sx) : option st :=
 Definition get_ev (s : sx) : option ev :=
   match s with
   | SL [SI 0; SI t] => Some (Tick t)
-  | SL [SI 1; SI t; SI k; r] =>
+  | SL [SI 1; SI t; SI k; r; SI d] =>
       match get_opt get_str r with
       | Some r =>
-          if k =? 0 then Some (Recv t (MHeartbeat r))
-          else if k =? 1 then Some (Recv t (MTestRequest r))
-          else if k =? 2 then Some (Recv t MApp)
+          if k =? 0 then Some (Recv t d (MHeartbeat r))
+          else if k =? 1 then Some (Recv t d (MTestRequest r))
+          else if k =? 2 then Some (Recv t d MApp)
           else None
       | None => None
       end
+  | SL [SI 1; SI t; SI 3; _; SI d; SI nw] => Some (Recv t d (MGapFill nw))
   | SL [SI 2; SI t] => Some (AppProbe t)
   | SL [SI 3; SI t; r] => option_map (AppRaw t) (get_str r)
   | _ => None
   end.
 
 Definition sx_kind (k : kind) : sx :=
-  SI (match k with KHeartbeat => 0 | KTestRequest => 1 | KLogout => 5 end).
+  SI (match k with KHeartbeat => 0 | KTestRequest => 1 | KResendRequest => 2 | KLogout => 5 end).
 
 Definition sx_out (o : out) : sx :=
   match o with
@@ -50,7 +53,7 @@ Definition sx_out (o : out) : sx :=
   end.
 
 Definition sx_st (s : st) : sx :=
-  SL [SI (s_state s); sx_of_bool (s_conn s); SI (s_mlt s); sx_of_opt SI (s_id s)].
+  SL [SI (s_state s); sx_of_bool (s_conn s); SI (s_mlt s); sx_of_opt SI (s_id s); SI (s_gap s)].
 
 Definition sx_row (r : row) : sx := SL [sx_of_list sx_out (r_out r); sx_st (r_st r)].
 
